@@ -643,6 +643,22 @@ fn check_normalize(x: &[MBrick], ctx: &mut Ctx) -> Result<Option<NormInfo>, Fail
             format!("normalize({}) = {}: string {} {} (|L7| {} -> {})", show(&xs), show(&out), show_code(w), dir, lang_count(&lx), lang_count(&lo)),
         )?;
     }
+    // `u32::MAX` is the marker for "unbounded repetitions" (what widening emits): the strings up to length 7 cannot
+    // tell it from a huge finite bound, so it is compared exactly: a list whose language is infinite because of an
+    // unbounded brick keeps an unbounded brick.
+    let infinite = |l: &MBricks| match l {
+        MBricks::Top => true,
+        MBricks::List(v) => v.iter().any(|b| matches!(b, MBrick::B { seq, max, .. } if *max == u32::MAX && seq.iter().any(|x| !x.is_empty()))),
+    };
+    if infinite(&xs) && !infinite(&out) {
+        ctx.report(
+            "C06:normalize-changes-language:unbounded-repetition-became-bounded",
+            format!("normalize({}) = {}: the input repeats a non-empty string without bound (max = u32::MAX), the result has only finite bounds", show(&xs), show(&out)),
+        )?;
+    }
+    if infinite(&xs) {
+        ctx.label("normalize:input-with-unbounded-brick");
+    }
     if let Sim::Normal { list, fired } = &sim {
         for (i, n) in fired.iter().enumerate() {
             if *n > 0 {
